@@ -647,7 +647,7 @@ def tt_equal(e1, e2, max_atoms=16):
     """truth-table equivalence of two boolean-valued expressions over their (canonical, comprehension-alpha-renamed) leaves.
     (True, None) | (False, witness assignment) | (None, reason)"""
     import itertools
-    e1, e2 = comp_alpha(e1), comp_alpha(e2)
+    e1, e2 = _split_affix_tuples(comp_alpha(e1)), _split_affix_tuples(comp_alpha(e2))
     atoms: Set[str] = set()
     _bool_atoms(e1, atoms)
     _bool_atoms(e2, atoms)
@@ -742,3 +742,16 @@ def facts_at_loops(fn_node):
         if n.kind == 'iter':
             out[id(n.ast)] = st.get(n.id)
     return out
+
+
+def _split_affix_tuples(e):
+    """x.startswith((a, b)) -> x.startswith(a) or x.startswith(b)   (same for endswith): one atom per affix"""
+    class T(ast.NodeTransformer):
+        def visit_Call(self, n):
+            self.generic_visit(n)
+            if isinstance(n.func, ast.Attribute) and n.func.attr in ('startswith', 'endswith') and len(n.args) == 1 and isinstance(n.args[0], ast.Tuple) \
+                    and n.args[0].elts and not n.keywords:
+                import copy as _c
+                return ast.BoolOp(op=ast.Or(), values=[ast.Call(func=_c.deepcopy(n.func), args=[x], keywords=[]) for x in n.args[0].elts])
+            return n
+    return ast.fix_missing_locations(T().visit(e))
